@@ -72,6 +72,7 @@ type Plan struct {
 	Listener   bool        `json:"listener,omitempty"` // attach an event listener
 	Loopback   bool        `json:"loopback,omitempty"` // C20: a PCAP-over-IP endpoint served over a real loopback socket (not replayable)
 	NoOracle   bool        `json:"no_oracle,omitempty"`
+	Poip       bool        `json:"poip,omitempty"` // C20: packets fed to the PCAP-over-IP handler (not replayable)
 	// weights for the scheduler (per mille): probability to prefer a
 	// background step over an API step when both are enabled
 	BgBias int `json:"bg_bias"`
@@ -476,6 +477,19 @@ func Gen(prop, tier string, seed, run uint64) Plan {
 	}
 	if p.Loopback {
 		mutOps = append([]Op{{C: CMut, K: "AddEndpoint", Addr: "LOOPBACK"}}, mutOps...)
+	}
+	if prop == "C20" && (run%7 == 3 || run%7 == 5) && nf > 0 {
+		// PCAP-over-IP ingestion without a socket: packets are handed to the real
+		// packet handler; its capture writer and the import it queues run outside
+		// the controller's schedule, so these runs are not replayable (they are not
+		// among the run indices of the determinism probe) — the race detector
+		// does not need them to be
+		for i, m := 0, 1+r.IntN(3); i < m; i++ {
+			at := r.IntN(len(mutOps) + 1)
+			feed := Op{C: CMut, K: "PoipFeed", Files: []int{r.IntN(nf)}, V: 2 + r.IntN(40)}
+			mutOps = append(mutOps[:at], append([]Op{feed}, mutOps[at:]...)...)
+		}
+		p.Poip = true
 	}
 	for _, o := range impOps {
 		add(o)
